@@ -302,6 +302,23 @@ MUTANTS = [
     m("C02-silent-permutation-rmatmat", "C02", "", OPS, "    def _matmat(self, v):\n        return v[self.perm]\n", "    def _matmat(self, v):\n        return v[self.perm]\n\n    def _rmatmat(self, X):\n        return X[:, self.xnp.argsort(self.perm)]\n", silent=True),
     m("C02-permutation-rmatmat-forward", "C02", "left-product@Permutation._rmatmat", OPS, "    def _matmat(self, v):\n        return v[self.perm]\n", "    def _matmat(self, v):\n        return v[self.perm]\n\n    def _rmatmat(self, X):\n        return X[:, self.perm]\n"),
     m("C15-ritz-mask", "C15", "eigs-pairing@arnoldi_eigs:complete", ARN, "    eigvals, vs = xnp.eig(H.to_dense())\n    eigvectors = Q @ lazify(vs)", "    eigvals, vs = xnp.eig(H.to_dense())\n    keep = xnp.abs(eigvals) > tol\n    eigvals, vs = eigvals[keep], vs[:, keep]\n    eigvectors = Q @ lazify(vs)"),
+    # ---- rules added after the fifth round of seeded changes
+    m("C10-eig-vectors-cast-real", "C10", "complex-eigenvectors@eig(LinearOperator,int,str,Eig)", EIGS, "    eig_vals, eig_vecs = A.xnp.eig(A.to_dense())\n    return eig_vals[eig_slice], lazify(eig_vecs[:, eig_slice])",
+      "    eig_vals, eig_vecs = A.xnp.eig(A.to_dense())\n    eig_vecs = A.xnp.array(eig_vecs, dtype=A.dtype, device=A.device)\n    return eig_vals[eig_slice], lazify(eig_vecs[:, eig_slice])"),
+    m("C10-silent-eigh-vectors-cast", "C10", "", EIGS, "    eig_vals, eig_vecs = A.xnp.eigh(A.to_dense())\n    return eig_vals[eig_slice], Stiefel(lazify(eig_vecs[:, eig_slice]))",
+      "    eig_vals, eig_vecs = A.xnp.eigh(A.to_dense())\n    eig_vecs = A.xnp.array(eig_vecs, dtype=A.dtype, device=A.device)\n    return eig_vals[eig_slice], Stiefel(lazify(eig_vecs[:, eig_slice]))", silent=True),
+    m("C14-trim-by-condition-count", "C14", "trimming@lanczos:count", LAN, "    alpha, beta, Q, iters = alpha[..., 1:-1], beta, vec[..., 1:-1], i - 1", "    alpha, beta, Q, iters = alpha[..., 1:-1], beta, vec[..., 1:-1], info['iterations']"),
+    m("C14-silent-trim-by-condition-count-minus-one", "C14", "", LAN, "    alpha, beta, Q, iters = alpha[..., 1:-1], beta, vec[..., 1:-1], i - 1", "    alpha, beta, Q, iters = alpha[..., 1:-1], beta, vec[..., 1:-1], info['iterations'] - 1",
+      silent=True),
+    m("C14-trim-counter-not-offset", "C14", "trimming@lanczos:count", LAN, "    alpha, beta, Q, iters = alpha[..., 1:-1], beta, vec[..., 1:-1], i - 1", "    alpha, beta, Q, iters = alpha[..., 1:-1], beta, vec[..., 1:-1], i"),
+    m("C20-index-modulo-other-axis", "C20", "index-alias@LinearOperator.__getitem__:axis", BASE, "                    ej = xnp.canonical(loc=jdx, shape=(self.shape[-1], ), dtype=self.dtype, device=self.device)",
+      "                    ej = xnp.canonical(loc=jdx % self.shape[-2], shape=(self.shape[-1], ), dtype=self.dtype, device=self.device)"),
+    m("C20-silent-index-modulo-own-axis", "C20", "", BASE, "                    ej = xnp.canonical(loc=jdx, shape=(self.shape[-1], ), dtype=self.dtype, device=self.device)",
+      "                    ej = xnp.canonical(loc=jdx % self.shape[-1], shape=(self.shape[-1], ), dtype=self.dtype, device=self.device)", silent=True),
+    m("C06-auto-options-dropped", "C06", "auto-options@inv(LinearOperator,Auto):CG", INV, "            alg = CG(**alg.__dict__)", "            alg = CG()"),
+    m("C06-silent-auto-options-copied", "C06", "", INV, "            alg = CG(**alg.__dict__)", "            alg = CG(**dict(alg.__dict__))", silent=True),
+    m("C18-declare-updates-shared-set", "C18", "declare-annotation@WrapMeta.__call__", ANN, "        new_obj.annotations = obj.annotations | {self}", "        new_obj.annotations.update({self})"),
+    m("C18-silent-declare-copies-set", "C18", "", ANN, "        new_obj.annotations = obj.annotations | {self}", "        new_obj.annotations = set(obj.annotations) | {self}", silent=True),
     m("C19-sliced-densifies-parent", "C19", "matrix-free-product@Sliced.to_dense:parent", OPS, "    def __str__(self):\n        has_length = hasattr(self.slices[0], '__len__')", "    def to_dense(self):\n        return self.A.to_dense()[self.slices[0]][:, self.slices[1]]\n\n    def __str__(self):\n        has_length = hasattr(self.slices[0], '__len__')"),
 ]
 
